@@ -12,11 +12,13 @@ import os
 import shutil
 import vcommon as vc
 
-RULE = ("case = (generated HDF4 file, option set 1, option set 2).  Files: 0-3 nested vgroups with class/attributes/"
+RULE = ("case = (generated HDF4 file, option set 1, option set 2).  Every number type (datasets, images, attributes, fields, "
+        "scales) carries DFNT_LITEND or DFNT_NATIVE now and then; SDS and images are vgroup members under any tag "
+        "vgroup_insert accepts (regenerated tables).  Files: 0-3 nested vgroups with class/attributes/"
         "annotations, 2-7 SDS (10 number types + little-endian variants, rank 1-4, unlimited with 0-5 records, "
         "never-written, partly written with fill value, chunked / RLE / skipping-Huffman / deflate / chunked+compressed / "
         "n-bit inputs, attributes, named and shared dimensions with scales and attributes, data labels/descriptions), "
-        "0-3 GR images (1/3/4 components, all interlaces, palettes, chunked/compressed), 0-3 Vdatas (1-3 fields, "
+        "0-3 GR images (1/3/4 components, all interlaces, palettes, chunked/compressed, labels/descriptions under RIG or RI), 0-3 Vdatas (1-3 fields, "
         "attributes on vdata and fields, annotations), global SD/GR attributes, file labels/descriptions, lone palettes. "
         "Options: -t none/selected lists/'*' with NONE, RLE, HUFF n, GZIP n; -c none/selected/'*' with shapes or NONE; "
         "-m absent, in {0,1,100,1024,2000,100000} or at / one below / one above the byte size of an object; given on the command line or through an option file -f; a "
@@ -45,6 +47,24 @@ NTS = [3, 4, 20, 21, 22, 23, 24, 25, 5, 6]
 NTSIZE = {3: 1, 4: 1, 20: 1, 21: 1, 22: 2, 23: 2, 24: 4, 25: 4, 5: 4, 6: 8}
 
 
+def flav(r, nt, native=True):
+    """number type with a flavour flag now and then: DFNT_LITEND (0x4000) or DFNT_NATIVE (0x1000); the SD interface
+    refuses native types for attributes (SDsetattr), so callers pass native=False there"""
+    x = r.random()
+    return nt | 16384 if x < 0.25 else (nt | 4096 if (x < 0.30 and native) else nt)
+
+
+def insert_tags():
+    """the tags under which vgroup_insert copies an SDS / an image, as the translator regenerated them"""
+    import re
+    txt = open(os.path.join(vc.VERIF, "coq", "gen", "Gen_Repack.v")).read()
+    out = []
+    for n, dflt in (("insert_sds_tags", [720]), ("insert_image_tags", [306])):
+        m = re.search(r"Definition %s : list Z := \[([^\]]*)\]" % n, txt)
+        out.append([int(x) for x in m.group(1).split(";")] if m and m.group(1).strip() else dflt)
+    return out
+
+
 def hx(s):
     return s.encode().hex() if s else "-"
 
@@ -67,19 +87,20 @@ def gen_file(r, knobs=None):
             n += r.choice(["_x", ".v2", "-b", "%", "+"])
         return n
 
-    def attrs(maxn=3, field=None):
+    def attrs(maxn=3, field=None, native=True):
         for _ in range(r.choice([0, 0, 1, 1, 2, maxn])):
             nt = r.choice(NTS)
             cnt = r.choice([1, 1, 2, 3, 5, 9]) if nt != 4 else r.choice([1, 4, 11, 30])
+            nt = flav(r, nt, native)
             extra = (" f=%d" % field) if field is not None else ""
             lines.append("attr %s %d %d %d%s" % (hx(fresh("at")), nt, cnt, r.randrange(1, 10 ** 6), extra))
 
-    def anns(p=0.3):
+    def anns(p=0.3, image=False):
         for kind in ("label", "desc"):
             for _ in range(2 if r.random() < 0.1 else 1):
                 if r.random() < p:
                     txt = fresh("ann_" + kind) + " " + "".join(r.choice("abc xyz\n.") for _ in range(r.randrange(0, 24)))
-                    lines.append("ann %s %s" % (kind, hx(txt)))
+                    lines.append("ann %s %s%s" % (kind, hx(txt), (" atag=%d" % r.choice([306, 302])) if image else ""))
 
     # vgroups
     groups = []   # (id, path)
@@ -103,12 +124,12 @@ def gen_file(r, knobs=None):
             return g[0], g[1] + "/"
         return -1, ""
 
+    # an object is made a member of its vgroup under any of the tags vgroup_insert accepts for its kind
+    sds_mtags, image_mtags = insert_tags()
     dim_pool = []   # (name, size) named dimensions that may be shared
     nsds = r.choice([1, 2, 3, 3, 4, 5, 7]) if not knobs.get("nosds") else 0
     for _ in range(nsds):
-        nt = r.choice(NTS)
-        if r.random() < 0.12:
-            nt |= 16384
+        nt = flav(r, r.choice(NTS))
         base = nt & 0xfff
         rank = r.choice([1, 1, 2, 2, 2, 3, 3, 4])
         big = r.random() < 0.5
@@ -142,6 +163,7 @@ def gen_file(r, knobs=None):
             kvs.append("recs=%d" % recs)
         if pid >= 0:
             kvs.append("parent=%d" % pid)
+            kvs.append("mtag=%d" % r.choice(sds_mtags))
         lines.append("sds %s %d %d %d %s %s" % (hx(name), nt, 1 if unl else 0, rank, " ".join(map(str, dims)), " ".join(kvs)))
         cur = list(dims)
         if unl:
@@ -149,7 +171,7 @@ def gen_file(r, knobs=None):
         nbytes = NTSIZE[base]
         for d in cur:
             nbytes *= d
-        attrs()
+        attrs(native=False)
         for i in range(rank):
             if r.random() < 0.35:
                 size = 0 if (unl and i == 0) else dims[i]
@@ -162,9 +184,9 @@ def gen_file(r, knobs=None):
                     lines.append("dimname %d %s" % (i, hx(dn)))
                     dim_pool.append((dn, size))
                     if r.random() < 0.5 and not (unl and i == 0):
-                        lines.append("dimscale %d %d %d %d" % (i, r.choice(NTS), dims[i], r.randrange(1, 10 ** 6)))
+                        lines.append("dimscale %d %d %d %d" % (i, flav(r, r.choice(NTS)), dims[i], r.randrange(1, 10 ** 6)))
                     if r.random() < 0.3:
-                        lines.append("dimattr %d %s %d %d %d" % (i, hx(fresh("da")), r.choice(NTS), r.choice([1, 2, 4]),
+                        lines.append("dimattr %d %s %d %d %d" % (i, hx(fresh("da")), flav(r, r.choice(NTS), False), r.choice([1, 2, 4]),
                                                                  r.randrange(1, 10 ** 6)))
         anns(0.3)
         shadow.append(dict(path=ppath + name, kind="sds", rank=rank, dims=cur, bytes=nbytes, rec=unl,
@@ -173,7 +195,7 @@ def gen_file(r, knobs=None):
     ngr = r.choice([0, 0, 1, 1, 2, 3]) if not knobs.get("nogr") else 0
     has_imgpal = False
     for _ in range(ngr):
-        nt = r.choice([21, 21, 21, 20, 3, 22, 23, 24, 25, 5, 6])
+        nt = flav(r, r.choice([21, 21, 21, 20, 3, 22, 23, 24, 25, 5, 6]))
         ncomp = r.choice([1, 1, 3, 3, 4])
         il = r.choice([0, 0, 1, 2])
         big = r.random() < 0.5
@@ -186,15 +208,17 @@ def gen_file(r, knobs=None):
         if layout in ("c", "cz"):
             kvs.append("chunk=%d,%d" % (r.randrange(1, xd + 1), r.randrange(1, yd + 1)))
         if layout in ("z", "cz"):
-            kvs.append("comp=" + r.choice(["rle", "huff:%d" % r.choice([1, NTSIZE[nt]]), "gzip:%d" % r.randrange(1, 10)]))
+            kvs.append("comp=" + r.choice(["rle", "huff:%d" % r.choice([1, NTSIZE[nt & 0xfff]]), "gzip:%d" % r.randrange(1, 10)]))
         if pid >= 0:
             kvs.append("parent=%d" % pid)
+            kvs.append("mtag=%d" % r.choice(image_mtags))
         lines.append("gr %s %d %d %d %d %d %s" % (hx(name), nt, ncomp, il, xd, yd, " ".join(kvs)))
         if r.random() < 0.4:
             lines.append("pal %d" % r.randrange(1, 10 ** 6))
             has_imgpal = True
         attrs(2)
-        shadow.append(dict(path=ppath + name, kind="gr", rank=2, dims=[xd, yd], bytes=xd * yd * NTSIZE[nt], rec=False,
+        anns(0.25, image=True)
+        shadow.append(dict(path=ppath + name, kind="gr", rank=2, dims=[xd, yd], bytes=xd * yd * NTSIZE[nt & 0xfff], rec=False,
                            empty=False))
 
     nvs = r.choice([0, 1, 1, 2, 3])
@@ -204,7 +228,7 @@ def gen_file(r, knobs=None):
         nf = r.choice([1, 2, 2, 3, 4])
         fl = []
         for i in range(nf):
-            fl.append("%s %d %d" % (hx(fresh("f")), r.choice(NTS), r.choice([1, 1, 2, 3])))
+            fl.append("%s %d %d" % (hx(fresh("f")), flav(r, r.choice(NTS)), r.choice([1, 1, 2, 3])))
         pid, ppath = parent_choice()
         kvs = ["seed=%d" % r.randrange(1, 10 ** 6)]
         if pid >= 0:
@@ -221,9 +245,9 @@ def gen_file(r, knobs=None):
     for g in groups:
         shadow.append(dict(path=g[1], kind="vg", rank=0, dims=[], bytes=0, rec=False, empty=False))
     for _ in range(r.choice([0, 0, 1, 2])):
-        lines.append("gattr sd %s %d %d %d" % (hx(fresh("gsd")), r.choice(NTS), r.choice([1, 2, 7]), r.randrange(1, 10 ** 6)))
+        lines.append("gattr sd %s %d %d %d" % (hx(fresh("gsd")), flav(r, r.choice(NTS), False), r.choice([1, 2, 7]), r.randrange(1, 10 ** 6)))
     if ngr and r.random() < 0.4:
-        lines.append("gattr gr %s %d %d %d" % (hx(fresh("ggr")), r.choice(NTS), r.choice([1, 2, 7]), r.randrange(1, 10 ** 6)))
+        lines.append("gattr gr %s %d %d %d" % (hx(fresh("ggr")), flav(r, r.choice(NTS)), r.choice([1, 2, 7]), r.randrange(1, 10 ** 6)))
     for kind in ("label", "desc"):
         for _ in range(r.choice([0, 0, 1, 2])):
             lines.append("fann %s %s" % (kind, hx(fresh("file_" + kind) + " text")))
@@ -692,6 +716,13 @@ def signature(case, res):
     if has_lone and has_imgpal and (("status" in kinds and "Failed to read palette" in txt) or
                                     ("content" in kinds and "lonepal" in txt)):
         return "lone-palette-with-image-palette"
+    # an SDS of a native number type with a fill value: SDsetfillvalue stores the attribute with the native type, which
+    # SDsetattr (the only public way to re-create it) refuses
+    for l in case["script"]:
+        t = l.split()
+        if t[0] == "sds" and (int(t[2]) & 4096) and any(x.startswith("fill=") and x != "fill=-" for x in t) and \
+                "status" in kinds and "Cannot write attribute _FillValue" in txt:
+            return "native-typed-sds-with-fill-value"
     # record variables sharing a named unlimited dimension, hrepack refusing the dimension name
     unl_dim0, cur = {}, None
     for l in case["script"]:
@@ -967,6 +998,23 @@ FN_NUM = ["0", "10", "1024", "12a", "", "-5", "000100"]
 
 def gen_fn_line(r):
     opts = []
+    if r.random() < 0.12:
+        # knob: "*" requests together with table entries that stay consistent (a -t NONE superseded by "*"), queried by
+        # that very name: the four cases of options_get_info differ in whether the table is consulted at all
+        nm = r.choice(["A", "B", "g/C"])
+        opts = [("t", nm + ":NONE")] + ([("t", "*:" + r.choice(["RLE", "GZIP 6", "HUFF 1"]))] if r.random() < 0.8 else []) + \
+               ([("c", "*:" + r.choice(["2", "2x3", "NONE", "4x5"]))] if r.random() < 0.8 else [])
+        if r.random() < 0.3:
+            opts.append(("m", r.choice(["0", "10"])))
+        qs = []
+        for _ in range(2):
+            rank = r.choice([1, 2])
+            flags = r.choice([0, 1, 3])
+            lens = ",".join(str(r.choice([1, 2, 4])) for _ in range(rank)) if flags else "-"
+            comp = r.choice([0, 1, 4])
+            qs.append("%d %s %d %s %d %d %d %d" % (rank, hx(r.choice([nm, nm, "D"])), flags, lens, comp if flags == 3 else 0,
+                                                     r.choice([0, 6]), comp, r.choice([0, 6])))
+        return "O %d %s Q %d %s" % (len(opts), " ".join("%s %s" % (k, hx(v)) for k, v in opts), len(qs), " ".join(qs)), opts
     for _ in range(r.choice([0, 1, 1, 2, 2, 3, 4, 5])):
         kind = r.choice(["t", "t", "c", "c", "m"])
         if kind == "m":
